@@ -1211,6 +1211,8 @@ func replay(c *core.Ctx) {
 		k.afterFailedRead()
 	case "load-after-replace":
 		k.loadAfterReplace()
+	case "sinks":
+		k.sinks()
 	default:
 		c.HarnessError("unknown case kind %q", cs.Kind)
 	}
